@@ -89,6 +89,12 @@ AdvEdit(kind) ==
                            [] kind = "extend"   -> [d EXCEPT !.i = 0]
                            [] kind = "retype"   -> [d EXCEPT !.h = 0, !.sk = FALSE] }
     /\ UNCHANGED << sent, macbuf, prfbuf, outcome, fresh, decBeforeMac, cipherOnPlain >>
+\* octets the adversary made up: nothing in them comes from a sent datagram, but they present an Encrypted payload
+AdvGarbage ==
+  /\ [h |-> 0, b |-> 0, i |-> 0, sk |-> TRUE] \notin net
+  /\ Step([op |-> "adv", kind |-> "garbage", d |-> 0, d2 |-> 0])
+  /\ net' = net \cup { [h |-> 0, b |-> 0, i |-> 0, sk |-> TRUE] }
+  /\ UNCHANGED << sent, macbuf, prfbuf, outcome, fresh, decBeforeMac, cipherOnPlain >>
 AdvSplice ==
   \E d1, d2 \in net :
     /\ Genuine(d1) /\ Genuine(d2) /\ d1 # d2 /\ d1.h = d1.b /\ d2.h = d2.b
@@ -129,7 +135,7 @@ DeriveChild(o, n) ==
 Next ==
   \/ \E o \in Objs, r \in Roles, m \in Msgs : Protect(o, r, m)
   \/ \E k \in {"fliphdr", "flipbody", "flipicv", "truncate", "extend", "retype"} : AdvEdit(k)
-  \/ AdvSplice
+  \/ AdvSplice \/ AdvGarbage
   \/ \E o \in Objs, r \in Roles, d \in net : Unprotect(o, r, d)
   \/ \E o \in Objs, n \in Nonces : DeriveChild(o, n)
 
